@@ -53,6 +53,8 @@ Letters == { <<"A"," ","+">>, <<" ","=","b"," ">> } \cup (IF Size >= 2 THEN { <<
 RowNames == IF Size >= 2 THEN {"`","1","Q","A","Z"} ELSE {"1","A"}
 RRep(ml) == {Normal, Disabled}
             \cup {[kind |-> "Special", tomods |-> tm, letters |-> ls, delay |-> 50, interval |-> 30]: tm \in ToMods(ml), ls \in {<<" ","Y">>} \cup (IF Size >= 2 THEN {<<"x">>, <<>>} ELSE {})}
+            \* as many repeat letters as the longest letters string has characters, trailing blank included (one more would be refused)
+            \cup {[kind |-> "Special", tomods |-> <<>>, letters |-> <<"q"," ","e","r">>, delay |-> 50, interval |-> 30]}
 RowsFor(ml) ==
   {[ty |-> "row", mods |-> ml, row |-> r, tomods |-> tm, letters |-> ls, rep |-> rp, abs |-> ab2]:
      r \in RowNames, tm \in ToMods(ml), ls \in Letters, rp \in RRep(ml),
